@@ -98,6 +98,11 @@ func (c *Ctx) valueSource(ia *interpAnchors, v ssa.Value, depth int) string {
 	case *ssa.ChangeInterface:
 		return c.valueSource(ia, x.X, depth+1)
 	case *ssa.Extract:
+		if call, ok := x.Tuple.(*ssa.Call); ok {
+			if s, ok := c.accessorResultSource(ia, call, x.Index, depth+1); ok {
+				return s
+			}
+		}
 		return c.valueSource(ia, x.Tuple, depth+1)
 	case *ssa.TypeAssert:
 		return c.valueSource(ia, x.X, depth+1)
@@ -165,6 +170,9 @@ func (c *Ctx) valueSource(ia *interpAnchors, v ssa.Value, depth int) string {
 		}
 		return "fresh"
 	case *ssa.Call:
+		if s, ok := c.accessorResultSource(ia, x, 0, depth+1); ok {
+			return s
+		}
 		name := "dynamic"
 		if targets := closureTargets(x.Call.Value); len(targets) > 0 && !x.Call.IsInvoke() {
 			// a closure made in this function: what it returns (helpers and closures are the same thing)
